@@ -9,7 +9,7 @@ descriptions.  A "ufo spec" is a dict:
 
   glyph spec: name, width, height, unicodes [int], contours [[ [x, y, type|None, smooth] ]],
               components [{"base": name, "t": [xx, xy, yx, yy, dx, dy]}],
-              anchors [{"name", "x", "y"}], lib {}, verticalOrigin (optional)
+              anchors [{"name", "x", "y", "identifier"?}], lib {}, verticalOrigin (optional)
 """
 import copy
 
@@ -41,7 +41,10 @@ def _fill_glyph(g, gs):
     for c in gs.get("components", []):
         pen.addComponent(c["base"], tuple(c["t"]))
     for a in gs.get("anchors", []):
-        g.appendAnchor({"name": a["name"], "x": a["x"], "y": a["y"]})
+        ad = {"name": a["name"], "x": a["x"], "y": a["y"]}
+        if a.get("identifier"):
+            ad["identifier"] = a["identifier"]
+        g.appendAnchor(ad)
     for k, v in (gs.get("lib") or {}).items():
         g.lib[k] = copy.deepcopy(v)
     if gs.get("verticalOrigin") is not None:
